@@ -2,7 +2,7 @@
 # Independent confirmation of every seeded change in a scratch worktree of /repo (outside /repo and /verif):
 #   the demonstration passes on the clean tree, the patch applies and builds, the repository's own
 #   test suite passes with it, and the demonstration fails with it. Result lines go to seeded/CONFIRMED.txt.
-WT=/tmp/wt/confirm
+WT=${WT:-/tmp/wt/confirm}
 OUT=/verif/seeded/CONFIRMED.txt
 ONLY="$*"
 if [ ! -d $WT ]; then git -C /repo worktree add --detach $WT HEAD >/dev/null 2>&1 || exit 2; fi
